@@ -346,7 +346,7 @@ def template_text(draw, groups=None):
 
 
 COINCIDENCES = [
-    ("3", "5"), ("4", "4"), ("3", "-3"), ("0.5", "2"), ("1", "1"), ("-1", "-1"), ("0", "5"), ("5", "0"), ("1", "7"), ("7", "1"), ("-2", "0.5"), ("0.1", "0.3"), ("6", "9"), ("0", "0"),
+    ("3", "5"), ("4", "4"), ("3", "-3"), ("0.5", "2"), ("1", "1"), ("-1", "-1"), ("0", "5"), ("5", "0"), ("1", "7"), ("7", "1"), ("-2", "0.5"), ("0.1", "0.3"), ("6", "9"), ("0", "0"), ("0.5", "0.5"),
     # very small and very unequal magnitudes (folds far below 1, and near whole numbers)
     ("0.00001", "0.00002"), ("100000", "0.00001"), ("4.35", "100"), ("0.0000000004", "0.0000000001"),
 ]
